@@ -298,18 +298,18 @@ class SchemaBuilder:
         txt = body_text(body)
         for kind, shape in WHOLE_SETTERS.items():
             if txt == shape:
-                return kind
+                return (kind, None)
         if isinstance(val, ast.Call) and isinstance(val.func, ast.Name) and val.func.id == "color_validator":
             if pre or len(val.args) != 1 or ast.unparse(val.args[0]) != "val" \
                     or any(k.arg != "parent_name" for k in val.keywords):
                 fail(f"{cls.__name__}.{name}: unknown color_validator call shape")
-            return "KColor"
+            return ("KColor", None)
         if isinstance(val, ast.IfExp):
             if pre or ast.unparse(val) != "val if val is None else str(val)":
                 fail(f"{cls.__name__}.{name}: unknown conditional setter")
-            return "KToStr"
+            return ("KToStr", None)
         if isinstance(val, ast.Call) and ast.unparse(val) == "self._validate_data(val)" and not pre:
-            return "KData"
+            return ("KData", None)
         if not (isinstance(val, ast.Name) and val.id == "val"):
             fail(f"{cls.__name__}.{name}: stored value is not `val`: {ast.unparse(val)}")
         local = {}
@@ -328,7 +328,7 @@ class SchemaBuilder:
         test = stmts[0].test
         t = norm(test)
         if t in SIMPLE_TESTS:
-            return SIMPLE_TESTS[t]
+            return (SIMPLE_TESTS[t], None)
         # enum: val is None or val in X
         if isinstance(test, ast.BoolOp) and isinstance(test.op, ast.Or) and len(test.values) == 2 \
                 and ast.unparse(test.values[0]) == "val is None":
@@ -342,7 +342,9 @@ class SchemaBuilder:
                     allowed = self.resolve(fset, x, cls)
                 if not isinstance(allowed, (tuple, list)):
                     fail(f"{cls.__name__}.{name}: enum domain is not a tuple/list")
-                return "(KEnum " + clist([cval(v) for v in allowed]) + ")"
+                for v in allowed:
+                    cval(v)          # representable, or fail closed
+                return ("KEnum", list(allowed))
         fail(f"{cls.__name__}.{name}: unknown assert condition: {t}")
 
     def prop_schema(self, cls, name, prop):
@@ -367,7 +369,7 @@ class SchemaBuilder:
                 if sub is None or not isinstance(a, ast.Assign) or not is_self_attr(a.targets[0], "_" + name) \
                         or ast.unparse(a.value) != f"{sub.__name__}(text=val)":
                     fail(f"{cls.__name__}.{name}: unknown str special case")
-                return self.class_schema(sub, strtext=True)
+                return self.class_struct(sub, strtext=True)
             if not (isinstance(last, ast.Assign) and len(last.targets) == 1
                     and is_self_attr(last.targets[0], "_" + name)):
                 fail(f"{cls.__name__}.{name}: setter does not end with self._{name} = ...")
@@ -375,8 +377,8 @@ class SchemaBuilder:
             if sub is not None:
                 if len(s) != 1:
                     fail(f"{cls.__name__}.{name}: statements before validate_property_class")
-                return self.class_schema(sub, strtext=False)
-            return "(SLeaf " + self.leaf_kind(cls, name, prop.fset, s) + ")"
+                return self.class_struct(sub, strtext=False)
+            return ("leaf", self.leaf_kind(cls, name, prop.fset, s))
         chain = attr_chain(gv)
         if chain and len(chain) >= 2 and not any(c.startswith("_") for c in chain):
             # alias: getter reads self.a.b ; setter must be `if val is not None: self.a.b = val`
@@ -405,6 +407,11 @@ class SchemaBuilder:
         return sub
 
     def class_schema(self, cls, strtext=False):
+        return emit_schema(self.class_struct(cls, strtext))
+
+    def class_struct(self, cls, strtext=False):
+        """python structure: ("leaf", kind) | ("alias", target, kind) |
+        ("obj", class name, strtext, has_kw, ctor [(name, default)], props [(name, struct)])"""
         if cls in self.stack:
             fail(f"recursive style class {cls.__name__}")
         self.stack.append(cls)
@@ -423,17 +430,14 @@ class SchemaBuilder:
             if isinstance(ps, tuple) and ps[0] == "ALIAS":
                 tgt = ps[1]
                 k = self.find_leaf_kind(cls, tgt)
-                out.append((n, f"(SAlias {clist([cstr(x) for x in tgt])} {k})"))
+                out.append((n, ("alias", list(tgt), k)))
             else:
                 out.append((n, ps))
         self.stack.pop()
         for k, _ in ctor:
             if k not in names:
                 fail(f"{cls.__name__}.__init__: parameter {k} is not a property")
-        return ("(SObj " + cstr(cls.__name__) + (" true" if strtext else " false")
-                + (" true" if has_kw else " false") + "\n  "
-                + clist([f"({cstr(k)}, {coval(v)})" for k, v in ctor]) + "\n  "
-                + clist([f"({cstr(n)}, {ps})" for n, ps in out], ";\n   ") + ")")
+        return ("obj", cls.__name__, strtext, has_kw, list(ctor), out)
 
     def find_leaf_kind(self, cls, tgt):
         c = cls
@@ -449,6 +453,25 @@ class SchemaBuilder:
             if c is None:
                 fail(f"alias target {tgt}: {seg} is not a sub-object")
         fail("empty alias target")
+
+
+def kind_text(k):
+    name, allowed = k
+    if name == "KEnum":
+        return "(KEnum " + clist([cval(v) for v in allowed]) + ")"
+    return name
+
+
+def emit_schema(st):
+    if st[0] == "leaf":
+        return "(SLeaf " + kind_text(st[1]) + ")"
+    if st[0] == "alias":
+        return f"(SAlias {clist([cstr(x) for x in st[1]])} {kind_text(st[2])})"
+    _, cname, strtext, has_kw, ctor, props = st
+    return ("(SObj " + cstr(cname) + (" true" if strtext else " false")
+            + (" true" if has_kw else " false") + "\n  "
+            + clist([f"({cstr(k)}, {coval(v)})" for k, v in ctor]) + "\n  "
+            + clist([f"({cstr(n)}, {emit_schema(ps)})" for n, ps in props], ";\n   ") + ")")
 
 
 # ------------------------------------------------------------------ constructor forwarding of `style`
@@ -558,7 +581,8 @@ def tree_colors(t, out):
                     out.append(v)
 
 
-def generate(repo):
+def collect(repo):
+    """everything GenStyle.v is printed from, as python structures (also used by harness/props/C20.py)"""
     repo = os.path.abspath(repo)
     _MOD_CACHE.clear()
     defaults = load_defaults(repo)
@@ -582,20 +606,10 @@ def generate(repo):
         fail("imported DEFAULTS differs from the literal in defaults_values.py")
 
     sb = SchemaBuilder(dutil.MagicProperties)
-    out = ["(* GENERATED on every run from /repo by translate/gen_style.py -- do not edit *)",
-           "From Coq Require Import ZArith List Bool String.",
-           "From MV Require Import Lib.STree Model.StyleModel.",
-           "Import ListNotations.",
-           "Open Scope string_scope.",
-           "Open Scope list_scope.",
-           ""]
-    out.append("Definition DEFAULTS : tree :=\n" + ctree(defaults) + ".\n")
-
-    # the settings object
-    out.append("Definition defaults_schema : schema :=\n" + sb.class_schema(dcls.DefaultSettings) + ".\n")
+    defaults_struct = sb.class_struct(dcls.DefaultSettings)
 
     # object classes: style class, families
-    classes = [c for c in all_subclasses(basegeo)]
+    classes = list(all_subclasses(basegeo))
     style_classes = {}
     rows = []
     fwd = []
@@ -616,19 +630,7 @@ def generate(repo):
         fail("MagpyMarkers.__init__ no longer creates a DefaultMarkers style")
     style_classes.setdefault("DefaultMarkers", style.DefaultMarkers)
     rows.append(("MagpyMarkers", "DefaultMarkers", style.get_families(object.__new__(markers))))
-
-    for name, sc in style_classes.items():
-        out.append(f"Definition schema_{name} : schema :=\n" + sb.class_schema(sc) + ".\n")
-    out.append("Definition style_classes : list (string * schema) :=\n  "
-               + clist([f"({cstr(n)}, schema_{n})" for n in style_classes], ";\n   ") + ".\n")
-    out.append("(* object class, its style class, its families in the order get_families returns them *)")
-    out.append("Definition object_classes : list (string * (string * list string)) :=\n  "
-               + clist([f"({cstr(c)}, ({cstr(s)}, {clist([cstr(f) for f in fams])}))" for c, s, fams in rows],
-                       ";\n   ") + ".\n")
-    out.append("(* public constructors: does `style` reach BaseGeo.__init__'s `style` parameter? *)")
-    out.append("Definition ctor_style : list (string * (bool * string)) :=\n  "
-               + clist([f"({cstr(c)}, ({'true' if ok else 'false'}, {cstr(d)}))" for c, ok, d in fwd],
-                       ";\n   ") + ".\n")
+    structs = {name: sb.class_struct(sc) for name, sc in style_classes.items()}
 
     # colours
     pool = list(COLOR_POOL)
@@ -645,9 +647,39 @@ def generate(repo):
             r = None
         except Exception:   # pylint: disable=broad-except
             continue        # foreign exception (e.g. 'rgb(1,2)' -> TypeError): outside the model's pool
-        table.append(f"({cval(v)}, {coval(r)})")
+        table.append((v, r))
         if r is not None:
             pool.append(r)      # the table is closed under canonical outputs (idempotence is checked in Coq)
-    out.append("Definition colors : color_table :=\n  " + clist(table, ";\n   ") + ".\n")
-    out.append(f"(* {sb.nclasses} class expansions, {sb.nprops} properties, aliases: {sb.aliases} *)")
+    return {"DEFAULTS": defaults, "defaults_schema": defaults_struct, "style_classes": structs,
+            "object_classes": rows, "ctor_style": fwd, "colors": table,
+            "stats": (sb.nclasses, sb.nprops, sorted(set((a, b, tuple(c)) for a, b, c in sb.aliases)))}
+
+
+def generate(repo):
+    g = collect(repo)
+    out = ["(* GENERATED on every run from /repo by translate/gen_style.py -- do not edit *)",
+           "From Coq Require Import ZArith List Bool String.",
+           "From MV Require Import Lib.STree Model.StyleModel.",
+           "Import ListNotations.",
+           "Open Scope string_scope.",
+           "Open Scope list_scope.",
+           ""]
+    out.append("Definition DEFAULTS : tree :=\n" + ctree(g["DEFAULTS"]) + ".\n")
+    out.append("Definition defaults_schema : schema :=\n" + emit_schema(g["defaults_schema"]) + ".\n")
+    for name, st in g["style_classes"].items():
+        out.append(f"Definition schema_{name} : schema :=\n" + emit_schema(st) + ".\n")
+    out.append("Definition style_classes : list (string * schema) :=\n  "
+               + clist([f"({cstr(n)}, schema_{n})" for n in g["style_classes"]], ";\n   ") + ".\n")
+    out.append("(* object class, its style class, its families in the order get_families returns them *)")
+    out.append("Definition object_classes : list (string * (string * list string)) :=\n  "
+               + clist([f"({cstr(c)}, ({cstr(s)}, {clist([cstr(f) for f in fams])}))"
+                        for c, s, fams in g["object_classes"]], ";\n   ") + ".\n")
+    out.append("(* public constructors: does `style` reach BaseGeo.__init__'s `style` parameter? *)")
+    out.append("Definition ctor_style : list (string * (bool * string)) :=\n  "
+               + clist([f"({cstr(c)}, ({'true' if ok else 'false'}, {cstr(d)}))" for c, ok, d in g["ctor_style"]],
+                       ";\n   ") + ".\n")
+    out.append("Definition colors : color_table :=\n  "
+               + clist([f"({cval(v)}, {coval(r)})" for v, r in g["colors"]], ";\n   ") + ".\n")
+    nc, npr, al = g["stats"]
+    out.append(f"(* {nc} class expansions, {npr} properties, aliases: {al} *)")
     return "\n".join(out) + "\n"
